@@ -126,6 +126,9 @@ def gen_plan(rng, tier, idx, opts):
             else:
                 ops.append({"op": "post_filter", "seed": s()})
                 has_filter = True
+        elif r < 0.515:
+            # a REFUSED re-initialisation (the matrix fits the antenna counts, the number of users does not): nothing may change
+            ops.append({"op": "init_bad", "K_bad": rng.choice([kk for kk in (1, 2, 3, 4, 5) if kk != K]), "np_seed": s()})
         elif r < 0.53:
             # the caller re-initialises from the SAME ndarray object it handed before, split differently among the users
             def part(total, k):
@@ -316,6 +319,23 @@ def execute(plan):
                         bump(res["probes"], "redimension_with_pathloss_set")
                     if cache[1] == "1":
                         bump(res["probes"], "mutation_after_big_H_cached")
+                elif kind == "init_bad":
+                    if m.raw is None or not m.pl_valid:
+                        continue
+                    Mb = arr({"shape": [int(sum(m.Nr)), int(sum(m.Nt) + sum(m.NtE))], "np_seed": op["np_seed"]})
+                    try:
+                        if ext:
+                            ch.init_from_channel_matrix(Mb, np.array(m.Nr), np.array(m.Nt), op["K_bad"], np.array(m.NtE, dtype=int))
+                        else:
+                            ch.init_from_channel_matrix(Mb, np.array(m.Nr), np.array(m.Nt), op["K_bad"])
+                        viol("views", step, "init_from_channel_matrix accepted K=%d for %d antenna counts" % (op["K_bad"], len(m.Nr)), view="accepted")
+                        break
+                    except ValueError:
+                        bump(res["faults"], "rejected-setter")
+                    if ch.K != K:
+                        viol("views", step, "the refused re-initialisation changed K from %d to %r" % (K, ch.K), view="K")
+                        break
+                    check_views(step, "all")
                 elif kind == "set_pathloss":
                     if m.raw is None:
                         continue
